@@ -236,9 +236,9 @@ CLI_EXTRACT = 'the body of the getline loop is cut out of bin/main.c by tools/ex
 add(Job('cli_parse_line', 'harness/cli_parse_line.c', enforce='parse_line', replace=['eav_is_email', 'eav_errstr', 'sanitize_utf8'], timeout=600, reach=4, mem_est=2,
         expect=['postcondition', 'precondition', 'assigns'], functions=['parse_file: body of the getline loop (extracted as parse_line)'], files=['bin/main.c', 'bin/main.h'], assumptions=[A8, A9, CLI_EXTRACT],
         note='loop-free, every line length < 2^31: the library is asked once about exactly the trimmed line, one PASS/FAIL record agrees with its answer and echoes sanitize_utf8 of the same text, FAIL is followed by eav_errstr, comment lines produce nothing'))
-add(Job('cli_parse_file_bounded', 'harness/cli_parse_file_bounded.c', no_dfcc=True, unwind=10, defines=['-DCLI_LINES=5', '-DCLI_BYTES=8'], timeout=600, reach=2, mem_est=2,
+add(Job('cli_parse_file_bounded', 'harness/cli_parse_file_bounded.c', no_dfcc=True, unwind=12, defines=['-DCLI_LINES=5', '-DCLI_BYTES=8'], timeout=600, reach=2, mem_est=2,
         expect=['unwind', 'assertion'], functions=['parse_file (whole function)'], files=['bin/main.c', 'bin/main.h'], assumptions=[A8],
-        bounded='files of at most 5 lines of at most 8 bytes each; loops unwound 10 times with unwinding assertions; getline re-allocates its buffer on every call; library calls and sanitize_utf8 are checking stubs',
+        bounded='files of at most 5 lines of at most 8 bytes each; loops unwound 12 times with unwinding assertions; getline re-allocates its buffer on every call; library calls and sanitize_utf8 are checking stubs',
         note='plain CBMC (no contracts, real malloc/free): file closed, every buffer released, one record per non-comment line, one summary line, no memory error'))
 add(Job('cli_main_bounded', 'harness/cli_parse_file_bounded.c', no_dfcc=True, unwind=6, defines=['-DCLI_MAIN', '-DCLI_LINES=2', '-DCLI_BYTES=3'], timeout=600, reach=2, mem_est=2,
         expect=['unwind', 'assertion'], functions=['main (bin/main.c)', 'parse_file'], files=['bin/main.c', 'bin/main.h'], assumptions=[A8],
